@@ -280,6 +280,24 @@ def chunk_framing_server(chunk, acc):
         acc.case(ln, outcome=len(ct))
         if got != [(ct, sig)]:
             acc.fail("C05/framing/server-split", {"kind": "framing_server", "len": ln, "seed": acc.seed}, [len(ct), 16], got if isinstance(got, str) else [[len(a), len(b)] for a, b in got])
+        # a changed task stream pushed through the framing and then verified (what the traffic decoder does): every
+        # proper non-empty prefix and (for the short packets) every single-bit flip must be rejected with ValueError
+        # before anything is decrypted - it must not be framed as "no packets"
+        if ln > 100:
+            continue
+        stream = ct + sig
+        changed = [("trunc", n, stream[:n]) for n in range(1, len(stream))]
+        if ln in (0, 17):
+            changed += [("bit", i, stream[: i // 8] + bytes([stream[i // 8] ^ (1 << (i % 8))]) + stream[i // 8 + 1 :]) for i in range(8 * len(stream))]
+        for what, arg, t in changed:
+            acc.transitions += 1
+            with Monitor(c2) as mon:
+                res = call(lambda: [c2.decrypt_packet(p, ak, hk) for p in c2.ServerC2Data(output=t).iter_encrypted_packets()])
+            ok = isinstance(res, str) and res.startswith("EXC ValueError") and mon.entered == 0
+            acc.case(("framed", ln, what, arg), nontrivial=True, outcome=(res[:24] if isinstance(res, str) else len(res), mon.entered))
+            if not ok:
+                sg = "C05/tamper/framed/" + ("not-rejected" if isinstance(res, list) else "wrong-exception" if not mon.entered else "decrypted-before-verified")
+                acc.fail(sg, {"kind": "framed_fault", "len": ln, "what": what, "arg": arg, "seed": acc.seed}, "ValueError before decrypt_data", {"result": res if isinstance(res, str) else [r.hex()[:32] for r in res], "decrypt_entered": mon.entered})
     for empty in (None, b""):
         got = call(lambda: list(c2.ServerC2Data(output=empty).iter_encrypted_packets()))
         acc.case(("empty", empty), outcome=repr(got))
